@@ -222,6 +222,8 @@ def c12(tier, seed):
     c.assumptions = ["oracle/kpk.cpp retrograde solver over K+P+K, K+Q+K, K+R+K with the oracle move generator; fixed-point and "
                      "textbook positions checked in the oracle self-test"]
     c.require("kpk-positions", 662704)
+    c.require("kpk-reached-by-capture:weak-king-takes-pawn", 3000)
+    c.require("kpk-reached-by-capture:strong-king-takes-knight", 3000)
     return c.finish()
 
 
@@ -328,7 +330,15 @@ def c19(tier, seed):
             if not bm or bm[0] not in g["legal"]:
                 c.add_violation("uci-book:answer-not-allowed-by-book:" + r_["tag"].split(":")[1],
                                 {"tag": r_["tag"], "fen": g["fen"], "answer": bm, "book_allows": g["legal"], "cmds": r_["cmds"][-5:]})
+            if "__search__" in g["sm"]:
+                c.counters["uci-book-switched-to-recordless-book"] = c.counters.get("uci-book-switched-to-recordless-book", 0) + 1
+                if not any(l.startswith("info") for l in g["out"]):
+                    c.add_violation("uci-book:stale-records-after-switch:" + r_["tag"].split(":")[-1],
+                                    {"tag": r_["tag"], "fen": g["fen"], "answer": bm, "cmds": r_["cmds"][-6:],
+                                     "note": "no search ran after the book was replaced by one without complete records"})
     c.require("uci-book-answers", 100)
+    c.require("uci-book-switched-to-recordless-book", 10)
+    c.require("book-move:non-king-from-e1/e8-along-back-rank", 30)
     c.require("files:empty", 8)
     c.require("files:truncated-tail", 500)
     c.require("weight-vectors-sampled", 1000)
